@@ -30,6 +30,9 @@ Create(vs, d, inst, u) ==
   ELSE IF Len(vs) # dimension THEN Fail("VALUE")
   ELSE OkA(FA(dimension, vs, u))
 
+\* indices are Python indices: -n .. n-1 address an array of n values, negative ones from the end
+InRange(i, n) == -n <= i /\ i < n
+Pos(i, n) == IF i < 0 THEN n + i + 1 ELSE i + 1
 Effect(c) ==
   CASE c.op = "Ctor"        -> IF c.d < 2 THEN Fail("VALUE") ELSE Create(Vals(c.n), NoDim, c.d, c.u)      \* FixedArray(d, values, unit)
     [] c.op = "CtorDefault" -> IF c.d < 2 THEN Fail("VALUE") ELSE Create([i \in 1..c.d |-> Zero], NoDim, c.d, "m")   \* FixedArray(d, category)
@@ -50,10 +53,10 @@ Effect(c) ==
          LET a == pool[c.i]
              ru == IF c.form \in {"scalar", "tuple"} THEN c.u ELSE a.u                 \* unit of the result
              amount == IF c.form = "number" THEN <<15, 2>> ELSE Conv(c.u, ru, <<15, 2>>) IN      \* the supplied amount 7.5 (in c.u), in the result's unit
-         IF c.idx >= Len(a.vs) THEN Fail("INDEX")
-         ELSE OkA(FA(a.dim, [k \in 1..Len(a.vs) |-> IF k = c.idx + 1 THEN amount ELSE Conv(a.u, ru, a.vs[k])], ru))
+         IF ~InRange(c.idx, Len(a.vs)) THEN Fail("INDEX")
+         ELSE OkA(FA(a.dim, [k \in 1..Len(a.vs) |-> IF k = Pos(c.idx, Len(a.vs)) THEN amount ELSE Conv(a.u, ru, a.vs[k])], ru))
     [] c.op = "IndexAsScalar" -> LET a == pool[c.i] IN
-         IF c.idx >= Len(a.vs) THEN Fail("INDEX") ELSE OkX(Conv(a.u, c.u, a.vs[c.idx + 1]))
+         IF ~InRange(c.idx, Len(a.vs)) THEN Fail("INDEX") ELSE OkX(Conv(a.u, c.u, a.vs[Pos(c.idx, Len(a.vs))]))
     [] c.op \in {"SetImage", "SetDomain"} -> IF c.n = (IF c.op = "SetImage" THEN curve.dom ELSE curve.img) THEN OkX(Zero) ELSE Fail("VALUE")
 
 Appends(op) == op \in {"Ctor", "CtorDefault", "CreateWithQuantity", "CreateEmptyArray", "CreateCopy", "CopyToUnit", "CopyValuesTo", "Pickle", "Scale", "AddArrays", "ChangingIndex"}
@@ -82,11 +85,12 @@ CopyValuesTo == \E i \in I, n \in Lens, u \in Us, f \in {"unit", "unitcat"} : St
 Pickle == \E i \in I : Step([C("Pickle") EXCEPT !.i = i])
 Scale == \E i \in I : Step([C("Scale") EXCEPT !.i = i])
 AddArrays == \E i \in I, j \in I : pool[i].u # "" /\ pool[j].u # "" /\ Step([C("AddArrays") EXCEPT !.i = i, !.j = j])
-ChangingIndex == \E i \in I, idx \in 0..MaxDim, f \in {"number", "scalar", "keep", "tuple"}, u \in Us :
+ChangingIndex == \E i \in I, idx \in (-MaxDim - 1)..MaxDim, f \in {"number", "scalar", "keep", "tuple"}, u \in Us :
                    pool[i].u # "" /\ (f = "number" => u = "m") /\ Step([C("ChangingIndex") EXCEPT !.i = i, !.idx = idx, !.form = f, !.u = u])
-IndexAsScalar == \E i \in I, idx \in 0..MaxDim, u \in Us : pool[i].u # "" /\ Step([C("IndexAsScalar") EXCEPT !.i = i, !.idx = idx, !.u = u])
-SetImage == \E n \in Lens : Step([C("SetImage") EXCEPT !.n = n])
-SetDomain == \E n \in Lens : Step([C("SetDomain") EXCEPT !.n = n])
+IndexAsScalar == \E i \in I, idx \in (-MaxDim - 1)..MaxDim, u \in Us : pool[i].u # "" /\ Step([C("IndexAsScalar") EXCEPT !.i = i, !.idx = idx, !.u = u])
+\* form "points": the values are n points of size two (a list of pairs / a two-dimensional numpy array) - the length is the number of points
+SetImage == \E n \in Lens, f \in {"", "points", "points2d"} : Step([C("SetImage") EXCEPT !.n = n, !.form = f])
+SetDomain == \E n \in Lens, f \in {"", "points", "points2d"} : Step([C("SetDomain") EXCEPT !.n = n, !.form = f])
 Init == /\ TLCSet(2, 1 + (EmitOffset % 65520)) /\ pool = <<>> /\ hist = <<>>
         /\ \E k \in Lens : curve = [img |-> k, dom |-> k]               \* Curve(image, domain) of equal lengths
 Next == Ctor \/ CtorDefault \/ CreateWithQuantity \/ CreateEmptyArray \/ CreateCopy \/ CopyToUnit \/ CopyValuesTo \/ Pickle \/ Scale \/ AddArrays
@@ -104,8 +108,8 @@ Frozen == [][ \A k \in 1..Len(pool) : pool'[k] = pool[k] ]_vars
 ChangingIndexLaw == [][ LET s == LastStep IN (s.c.op = "ChangingIndex" /\ s.ok) =>
      LET a == pool[s.c.i]  r == s.a IN
      /\ r.dim = a.dim
-     /\ \A k \in 1..a.dim : k # s.c.idx + 1 => RMul(r.vs[k], F(r.u)) = RMul(a.vs[k], F(a.u))
-     /\ RMul(r.vs[s.c.idx + 1], F(r.u)) = RMul(<<15, 2>>, F(IF s.c.form = "number" THEN a.u ELSE s.c.u)) ]_vars
+     /\ \A k \in 1..a.dim : k # Pos(s.c.idx, a.dim) => RMul(r.vs[k], F(r.u)) = RMul(a.vs[k], F(a.u))
+     /\ RMul(r.vs[Pos(s.c.idx, a.dim)], F(r.u)) = RMul(<<15, 2>>, F(IF s.c.form = "number" THEN a.u ELSE s.c.u)) ]_vars
 
 EmitRec == PrintT(<<"TR", ToJson([h |-> hist'])>>)
 Emit == CASE EmitMode = "all"    -> EmitRec
